@@ -1,6 +1,6 @@
 (* C08 - lemmas about the post-solve step models (coq/PostsolveModel.v). *)
 From Coq Require Import QArith Qabs List Bool Arith Lia Lqa Setoid.
-From SV Require Import Vec LP Cert PostsolveModel.
+From SV Require Import Vec LP Cert Cert_Proofs PostsolveModel.
 Import ListNotations.
 Local Open Scope Q_scope.
 
@@ -663,3 +663,560 @@ Section FixVariable.
     rewrite E. ring.
   Qed.
 End FixVariable.
+
+(* ================================================================================================================= *)
+(* FixBoundsPS: the bounds of column j had been collapsed to val (dominated / weakly dominated column, empty column,  *)
+(* duplicate column); only the status of the column is restored                                                      *)
+(* ================================================================================================================= *)
+Section FixBounds.
+  Variable P : lp.
+  Variable j : nat.
+  Variable val : Q.
+  Hypothesis Hj : (j < ncols P)%nat.
+  Let P' := red_FixBounds P j val.
+
+  Lemma length_upd {A} (d : A) l i v : (i < length l)%nat -> length (upd d l i v) = length l.
+  Proof. revert i; induction l as [|a l IH]; intros [|i] H; simpl in *; try lia; auto. rewrite IH; lia. Qed.
+
+  Lemma ncols_FixBounds : ncols P' = ncols P.
+  Proof. unfold P', ncols, red_FixBounds; cbn [cols]. apply length_upd. exact Hj. Qed.
+
+  Lemma colj_FixBounds k : colj P' k = if Nat.eqb k j then {| c_obj := c_obj (colj P j); c_lo := Some val; c_up := Some val |} else colj P k.
+  Proof.
+    unfold P', colj, red_FixBounds; cbn [cols]. destruct (Nat.eqb_spec k j) as [Ekj|H]; [subst k|].
+    - apply nth_upd_same.
+    - apply nth_upd_other. congruence.
+  Qed.
+
+  Lemma c_obj_FixBounds k : c_obj (colj P' k) = c_obj (colj P k).
+  Proof. rewrite colj_FixBounds. destruct (Nat.eqb_spec k j) as [Ekj|]; [subst k|]; reflexivity. Qed.
+
+  Variable s : vstat.
+  Let exec t := exec_FixBounds j s t.
+
+  Lemma FixBounds_identities t : prim_ident P' t /\ dual_ident P' t -> prim_ident P (exec t) /\ dual_ident P (exec t).
+  Proof.
+    intros [H1 H2]. split.
+    - intros i Hi. apply (H1 i Hi).
+    - intros k Hk. assert (Hk' : (k < ncols P')%nat) by (rewrite ncols_FixBounds; exact Hk).
+      specialize (H2 k Hk'). rewrite c_obj_FixBounds in H2. exact H2.
+  Qed.
+
+  (* the value the column was fixed at lies within its original bounds *)
+  Lemma FixBounds_feas t : in_bounds (c_lo (colj P j)) (c_up (colj P j)) val -> prim_feas P' t -> prim_feas P (exec t).
+  Proof.
+    intros Hv [Hc Hr]. split.
+    - intros k Hk. assert (Hk' : (k < ncols P')%nat) by (rewrite ncols_FixBounds; exact Hk).
+      specialize (Hc k Hk'). rewrite colj_FixBounds in Hc. unfold exec, exec_FixBounds, gx, set_cs in *; cbn [sx] in *.
+      destruct (Nat.eqb_spec k j) as [Ekj|]; [subst k|exact Hc].
+      cbn [c_lo c_up] in Hc. destruct Hc as [A B]. simpl in A, B.
+      assert (E : vnth (sx t) j == val) by lra.
+      destruct Hv as [A' B']. split.
+      + destruct (c_lo (colj P j)); simpl in *; [lra|exact I].
+      + destruct (c_up (colj P j)); simpl in *; [lra|exact I].
+    - intros i Hi. apply (Hr i Hi).
+  Qed.
+
+  (* signs: the reductions that use FixBoundsPS fix a column at the bound its reduced cost is forced to have a sign
+     for.  The dominated-column case: cost < 0 and every row entry pushes the reduced cost further down *)
+  Definition dominated_up : Prop :=
+    c_obj (colj P j) < 0 /\ c_up (colj P j) = Some val /\
+    forall i, (i < nrows P)%nat -> (0 < coef P i j -> r_rhs (rowi P i) = None) /\ (coef P i j < 0 -> r_lhs (rowi P i) = None).
+  Definition dominated_lo : Prop :=
+    0 < c_obj (colj P j) /\ c_lo (colj P j) = Some val /\
+    forall i, (i < nrows P)%nat -> (0 < coef P i j -> r_lhs (rowi P i) = None) /\ (coef P i j < 0 -> r_rhs (rowi P i) = None).
+
+  Lemma sumn_nonneg n f : (forall k, (k < n)%nat -> 0 <= f k) -> 0 <= sumn n f.
+  Proof.
+    induction n as [|n IH]; intros H; simpl; [lra|].
+    assert (0 <= sumn n f) by (apply IH; intros; apply H; lia). assert (0 <= f n) by (apply H; lia). lra.
+  Qed.
+
+  Lemma row_sign_pos t i : dual_signs P' t -> (i < nrows P)%nat -> r_rhs (rowi P i) = None -> 0 <= gy t i.
+  Proof.
+    intros [_ Hr] Hi E. specialize (Hr i Hi). change (rowi P' i) with (rowi P i) in Hr. destruct Hr as [_ B].
+    rewrite E in B. destruct (Qlt_le_dec (gy t i) 0); [exfalso; auto|assumption].
+  Qed.
+  Lemma row_sign_neg t i : dual_signs P' t -> (i < nrows P)%nat -> r_lhs (rowi P i) = None -> gy t i <= 0.
+  Proof.
+    intros [_ Hr] Hi E. specialize (Hr i Hi). change (rowi P' i) with (rowi P i) in Hr. destruct Hr as [A _].
+    rewrite E in A. destruct (Qlt_le_dec 0 (gy t i)); [exfalso; auto|assumption].
+  Qed.
+
+  Lemma FixBounds_signs t : dominated_up \/ dominated_lo -> prim_feas P' t -> dual_ident P' t -> dual_signs P' t -> dual_signs P (exec t).
+  Proof.
+    intros Hdom [Hfc _] Hid Hs. pose proof Hs as [Hc Hr]. split; [|intros i Hi; apply (Hr i Hi)].
+    intros k Hk. assert (Hk' : (k < ncols P')%nat) by (rewrite ncols_FixBounds; exact Hk).
+    specialize (Hc k Hk'). rewrite colj_FixBounds in Hc. unfold exec, exec_FixBounds, gx, gr, set_cs in *; cbn [sx sr] in *.
+    destruct (Nat.eqb_spec k j) as [Ekj|]; [subst k|exact Hc]. clear Hc.
+    assert (Hj' : (j < ncols P')%nat) by (rewrite ncols_FixBounds; exact Hj).
+    specialize (Hfc j Hj'). rewrite colj_FixBounds, Nat.eqb_refl in Hfc. destruct Hfc as [A B]. simpl in A, B. unfold gx in A, B.
+    assert (Ex : vnth (sx t) j == val) by lra.
+    specialize (Hid j Hj'). unfold gr in Hid. rewrite c_obj_FixBounds in Hid.
+    change (matrix P') with (matrix P) in Hid. rewrite tvec_sumn in Hid.
+    destruct Hdom as [(Hcost & Hup & Hrows)|(Hcost & Hlo & Hrows)].
+    - assert (0 <= sumn (nrows P) (fun i => vnth (sy t) i * coef P i j)).
+      { apply sumn_nonneg. intros i Hi. destruct (Hrows i Hi) as [R1 R2].
+        destruct (Qlt_le_dec 0 (coef P i j)) as [Hp|Hnp].
+        - pose proof (row_sign_pos t i Hs Hi (R1 Hp)) as Y. unfold gy in Y. nra.
+        - destruct (Qlt_le_dec (coef P i j) 0) as [Hn|Hz].
+          + pose proof (row_sign_neg t i Hs Hi (R2 Hn)) as Y. unfold gy in Y. nra.
+          + assert (coef P i j == 0) by lra. nra. }
+      split; intros Hk0; [lra|]. rewrite Hup. lra.
+    - assert (sumn (nrows P) (fun i => vnth (sy t) i * coef P i j) <= 0).
+      { assert (0 <= sumn (nrows P) (fun i => - (vnth (sy t) i * coef P i j))).
+        { apply sumn_nonneg. intros i Hi. destruct (Hrows i Hi) as [R1 R2].
+          destruct (Qlt_le_dec 0 (coef P i j)) as [Hp|Hnp].
+          - pose proof (row_sign_neg t i Hs Hi (R1 Hp)) as Y. unfold gy in Y. nra.
+          - destruct (Qlt_le_dec (coef P i j) 0) as [Hn|Hz].
+            + pose proof (row_sign_pos t i Hs Hi (R2 Hn)) as Y. unfold gy in Y. nra.
+            + assert (coef P i j == 0) by lra. nra. }
+        assert (E : sumn (nrows P) (fun i => - (vnth (sy t) i * coef P i j)) == - sumn (nrows P) (fun i => vnth (sy t) i * coef P i j)).
+        { rewrite <- (sumn_scal (nrows P) (- (1))). apply sumn_ext. intros; ring. }
+        lra. }
+      split; intros Hk0; [|lra]. rewrite Hlo. lra.
+  Qed.
+
+  (* the column is non-basic before (FixVariablePS has just marked it) and after *)
+  Lemma FixBounds_count t : is_basic (gcs t j) = false -> is_basic s = false -> basis_count P' t -> basis_count P (exec t).
+  Proof.
+    unfold basis_count, exec, exec_FixBounds, set_cs; cbn [scs srs]. rewrite ncols_FixBounds.
+    change (nrows P') with (nrows P). intros B1 B2 H.
+    pose proof (cntb_supd (scs t) j s (ncols P) Hj) as E. unfold b1, gcs in *. rewrite B1, B2 in E. lia.
+  Qed.
+End FixBounds.
+
+(* ================================================================================================================= *)
+(* RowObjPS: the slack column that carried the row objective is removed again                                        *)
+(* ================================================================================================================= *)
+Lemma dot_app_one u a x : dot (u ++ [a]) x == dot u x + a * vnth x (length u).
+Proof.
+  revert x; induction u as [|b u IH]; intros [|c x]; simpl; try ring.
+  rewrite IH. ring.
+Qed.
+
+Lemma vnth_app_l u v k : (k < length u)%nat -> vnth (u ++ v) k = vnth u k.
+Proof. intros H. rewrite !vnth_nth. now apply app_nth1. Qed.
+
+Section RowObj.
+  Variable P : lp.
+  Variable i : nat.
+  Variable w : Q.
+  Hypothesis W : wf_lp P.
+  Hypothesis Hi : (i < nrows P)%nat.
+  Let P' := red_RowObj P i w.
+  Let n := ncols P.
+
+  Lemma nrows_RowObj : nrows P' = nrows P.
+  Proof. unfold P', nrows, red_RowObj; cbn [rows]. now rewrite map_length, seq_length. Qed.
+
+  Lemma ncols_RowObj : ncols P' = S n.
+  Proof. unfold P', ncols, red_RowObj; cbn [cols]. rewrite app_length. simpl. unfold n, ncols. lia. Qed.
+
+  Lemma colj_RowObj j : (j < n)%nat -> colj P' j = colj P j.
+  Proof. intros H. unfold P', colj, red_RowObj; cbn [cols]. now apply app_nth1. Qed.
+
+  Lemma colj_RowObj_slack : colj P' n = {| c_obj := w; c_lo := option_map Qopp (r_rhs (rowi P i)); c_up := option_map Qopp (r_lhs (rowi P i)) |}.
+  Proof. unfold P', colj, red_RowObj; cbn [cols]. rewrite app_nth2 by (unfold n, ncols; lia). unfold n, ncols. now rewrite Nat.sub_diag. Qed.
+
+  Lemma rowi_RowObj k : (k < nrows P)%nat ->
+    rowi P' k = if Nat.eqb k i
+                then {| r_lhs := Some 0; r_coef := r_coef (rowi P k) ++ [1]; r_rhs := Some 0 |}
+                else {| r_lhs := r_lhs (rowi P k); r_coef := r_coef (rowi P k) ++ [0]; r_rhs := r_rhs (rowi P k) |}.
+  Proof. intros H. unfold P', rowi at 1, red_RowObj; cbn [rows]. now rewrite nth_map_seq by exact H. Qed.
+
+  Lemma activity_RowObj k x : (k < nrows P)%nat ->
+    activity P' k x == activity P k x + (if Nat.eqb k i then 1 else 0) * vnth x n.
+  Proof.
+    intros H. unfold activity. rewrite rowi_RowObj by exact H.
+    destruct (Nat.eqb k i); cbn [r_coef]; rewrite dot_app_one, (W k H); reflexivity.
+  Qed.
+
+  Lemma coef_RowObj k j : (k < nrows P)%nat -> (j < n)%nat -> coef P' k j = coef P k j.
+  Proof.
+    intros Hk Hj. unfold coef. rewrite rowi_RowObj by exact Hk.
+    destruct (Nat.eqb k i); cbn [r_coef]; apply vnth_app_l; rewrite (W k Hk); exact Hj.
+  Qed.
+
+  Let exec t := exec_RowObj i n t.
+
+  Lemma exec_RowObj_values t : sx (exec t) = sx t /\ sy (exec t) = sy t /\ sr (exec t) = sr t /\
+                               ss (exec t) = qupd (ss t) i (gs t i - gx t n).
+  Proof.
+    unfold exec, exec_RowObj. cbv zeta.
+    destruct (is_basic (grs (set_s t i (gs t i - gx t n)) i)); repeat split; reflexivity.
+  Qed.
+
+  Lemma RowObj_identities t : prim_ident P' t /\ dual_ident P' t -> prim_ident P (exec t) /\ dual_ident P (exec t).
+  Proof.
+    intros [H1 H2]. destruct (exec_RowObj_values t) as (Ex & Ey & Er & Es). split.
+    - intros k Hk. unfold gs. rewrite Es, Ex.
+      assert (Hk' : (k < nrows P')%nat) by (rewrite nrows_RowObj; exact Hk).
+      specialize (H1 k Hk'). unfold gs in H1. rewrite activity_RowObj in H1 by exact Hk.
+      destruct (Nat.eqb_spec k i) as [Eki|Hne]; [subst k|].
+      + rewrite vnth_qupd_same. unfold gs, gx. rewrite H1. ring.
+      + rewrite vnth_qupd_other by congruence. rewrite H1. ring.
+    - intros j Hj. unfold gr. rewrite Er, Ey.
+      assert (Hj' : (j < ncols P')%nat) by (rewrite ncols_RowObj; unfold n; lia).
+      specialize (H2 j Hj'). unfold gr in H2. rewrite H2. rewrite colj_RowObj by exact Hj.
+      rewrite !tvec_sumn, nrows_RowObj. apply Qplus_comp; [reflexivity|]. apply Qopp_comp.
+      apply sumn_ext. intros k Hk. rewrite coef_RowObj by auto. reflexivity.
+  Qed.
+
+  (* primal feasibility: the slack column lives in [-rhs_i, -lhs_i] and row i of the extended LP is the equation = 0 *)
+  Lemma RowObj_feasibility_partial t : prim_feas P' t -> prim_feas P (exec t).
+  Proof.
+    intros [Hc Hr]. destruct (exec_RowObj_values t) as (Ex & Ey & Er & Es). split.
+    - intros j Hj. unfold gx. rewrite Ex.
+      assert (Hj' : (j < ncols P')%nat) by (rewrite ncols_RowObj; unfold n; lia).
+      specialize (Hc j Hj'). rewrite colj_RowObj in Hc by exact Hj. exact Hc.
+    - intros k Hk. unfold gs. rewrite Es.
+      assert (Hk' : (k < nrows P')%nat) by (rewrite nrows_RowObj; exact Hk).
+      specialize (Hr k Hk'). rewrite rowi_RowObj in Hr by exact Hk.
+      destruct (Nat.eqb_spec k i) as [Eki|Hne]; [subst k|].
+      + rewrite vnth_qupd_same. cbn [r_lhs r_rhs] in Hr. destruct Hr as [A B]. simpl in A, B.
+        assert (Hn : (n < ncols P')%nat) by (rewrite ncols_RowObj; lia).
+        specialize (Hc n Hn). rewrite colj_RowObj_slack in Hc. cbn [c_lo c_up] in Hc. destruct Hc as [C D].
+        unfold gs, gx in *. split.
+        * destruct (r_lhs (rowi P i)); simpl in *; [lra|exact I].
+        * destruct (r_rhs (rowi P i)); simpl in *; [lra|exact I].
+      + rewrite vnth_qupd_other by congruence. exact Hr.
+  Qed.
+
+  Lemma b1_rowobj_map s : b1 (match s with ON_UPPER => ON_LOWER | ON_LOWER => ON_UPPER | o => o end) = b1 s.
+  Proof. destruct s; reflexivity. Qed.
+
+  (* a regular basis cannot contain both the slack of row i and the added unit column *)
+  Lemma RowObj_count t : ~ (is_basic (grs t i) = true /\ is_basic (gcs t n) = true) -> basis_count P' t -> basis_count P (exec t).
+  Proof.
+    unfold basis_count. rewrite ncols_RowObj, nrows_RowObj. intros Hnb H. simpl cntb in H. fold (b1 (snth (scs t) n)) in H.
+    unfold exec, exec_RowObj. cbv zeta.
+    change (grs (set_s t i (gs t i - gx t n)) i) with (grs t i).
+    change (gcs (set_s t i (gs t i - gx t n)) n) with (gcs t n).
+    destruct (is_basic (grs t i)) eqn:Eb.
+    - cbn [scs srs set_s]. fold n. assert (is_basic (gcs t n) = false) by (destruct (is_basic (gcs t n)); [exfalso; auto|reflexivity]).
+      unfold b1, gcs in *. rewrite H0 in H. lia.
+    - cbn [scs srs set_cs set_rs set_s]. fold n.
+      rewrite cntb_supd_beyond by lia.
+      pose proof (fun v => cntb_supd (srs t) i v (nrows P) Hi) as E.
+      unfold b1 in E. unfold grs in Eb. rewrite Eb in E. unfold b1, gcs in *.
+      destruct (snth (scs t) n); simpl in H |- *;
+        match goal with |- context [supd (srs t) i ?v] => specialize (E v) end; simpl in E; lia.
+  Qed.
+End RowObj.
+
+(* ================================================================================================================= *)
+(* basis count of the steps that restore one row and one column (FreeColSingletonPS, MultiAggregationPS)             *)
+(* ================================================================================================================= *)
+Lemma scs_fix_col_idx t j oj v : scs (set_cs (fix_col_idx t j oj) j v) = sunswap (scs t) j oj v.
+Proof. unfold fix_col_idx, sunswap, set_cs, set_r, set_x, gcs. destruct (Nat.eqb j oj); reflexivity. Qed.
+
+Lemma srs_fix_row_idx t i oi v : srs (set_rs (fix_row_idx t i oi) i v) = sunswap (srs t) i oi v.
+Proof. unfold fix_row_idx, sunswap, set_rs, set_y, set_s, grs. destruct (Nat.eqb i oi); reflexivity. Qed.
+
+Lemma FreeColSingleton_statuses c j i oj oi obj lRhs onLhs eqCons row t :
+  let t' := exec_FreeColSingleton c j i oj oi obj lRhs onLhs eqCons row t in
+  scs t' = sunswap (scs t) j oj BASIC /\
+  srs t' = sunswap (srs t) i oi (if eqCons then FIXED else if onLhs then ON_LOWER else ON_UPPER).
+Proof.
+  unfold exec_FreeColSingleton, fix_col_idx, fix_row_idx, sunswap, set_rs, set_cs, set_r, set_y, set_s, set_x, gcs, grs; cbv zeta.
+  destruct (Nat.eqb j oj), (Nat.eqb i oi); split; reflexivity.
+Qed.
+
+Lemma MultiAggregation_statuses c j i oj oi obj cst onLhs eqCons row col t :
+  let t' := exec_MultiAggregation c j i oj oi obj cst onLhs eqCons row col t in
+  scs t' = sunswap (scs t) j oj BASIC /\
+  srs t' = sunswap (srs t) i oi (if eqCons then FIXED else if onLhs then ON_LOWER else ON_UPPER).
+Proof.
+  unfold exec_MultiAggregation, fix_col_idx, fix_row_idx, sunswap, set_rs, set_cs, set_r, set_y, set_s, set_x, set_svec, gcs, grs; cbv zeta.
+  destruct (Nat.eqb j oj), (Nat.eqb i oi); split; reflexivity.
+Qed.
+
+(* n1, m1: dimensions of the reduced LP; the step restores column j <= n1 and row i <= m1 *)
+Lemma row_col_restore_count (cs rs : list vstat) j i n1 m1 v : (j <= n1)%nat -> (i <= m1)%nat -> is_basic v = false ->
+  (cntb cs n1 + cntb rs m1 = m1)%nat ->
+  (cntb (sunswap cs j n1 BASIC) (S n1) + cntb (sunswap rs i m1 v) (S m1) = S m1)%nat.
+Proof.
+  intros Hj Hi Hv H. rewrite !cntb_sunswap by assumption. unfold b1. rewrite Hv. simpl. lia.
+Qed.
+
+Lemma FreeColSingleton_count c j i n1 m1 obj lRhs onLhs eqCons row t : (j <= n1)%nat -> (i <= m1)%nat ->
+  (cntb (scs t) n1 + cntb (srs t) m1 = m1)%nat ->
+  let t' := exec_FreeColSingleton c j i n1 m1 obj lRhs onLhs eqCons row t in
+  (cntb (scs t') (S n1) + cntb (srs t') (S m1) = S m1)%nat.
+Proof.
+  intros Hj Hi H t'. destruct (FreeColSingleton_statuses c j i n1 m1 obj lRhs onLhs eqCons row t) as [E1 E2].
+  unfold t'. rewrite E1, E2. apply row_col_restore_count; auto. destruct eqCons, onLhs; reflexivity.
+Qed.
+
+Lemma MultiAggregation_count c j i n1 m1 obj cst onLhs eqCons row col t : (j <= n1)%nat -> (i <= m1)%nat ->
+  (cntb (scs t) n1 + cntb (srs t) m1 = m1)%nat ->
+  let t' := exec_MultiAggregation c j i n1 m1 obj cst onLhs eqCons row col t in
+  (cntb (scs t') (S n1) + cntb (srs t') (S m1) = S m1)%nat.
+Proof.
+  intros Hj Hi H t'. destruct (MultiAggregation_statuses c j i n1 m1 obj cst onLhs eqCons row col t) as [E1 E2].
+  unfold t'. rewrite E1, E2. apply row_col_restore_count; auto. destruct eqCons, onLhs; reflexivity.
+Qed.
+
+(* DoubletonEquationPS only exchanges the roles of x_j and x_k: the count is unchanged whenever x_j was basic exactly
+   when the step fires (it fires only for a non-basic x_k) *)
+Lemma DoubletonEquation_count c j k i ms jf jo ko aij slo sup loj col t n m : (j < n)%nat -> (k < n)%nat -> j <> k ->
+  (is_basic (gcs t k) = false -> is_basic (gcs t j) = true) ->
+  let t' := exec_DoubletonEquation c j k i ms jf jo ko aij slo sup loj col t in
+  (cntb (scs t') n + cntb (srs t') m = cntb (scs t) n + cntb (srs t) m)%nat.
+Proof.
+  intros Hj Hk Hjk Hb t'. unfold t', exec_DoubletonEquation.
+  match goal with |- context [if ?c then _ else _] => destruct c eqn:Ec end; [|reflexivity].
+  apply andb_true_iff in Ec. destruct Ec as [Ec _]. apply negb_true_iff in Ec. specialize (Hb Ec).
+  cbv zeta.
+  match goal with |- context [set_cs ?tt k BASIC] => set (T := tt) end.
+  assert (Es : srs (set_cs T k BASIC) = srs t).
+  { unfold T. destruct jf; [reflexivity|]. match goal with |- context [if ?c then _ else _] => destruct c end; reflexivity. }
+  rewrite Es. f_equal.
+  assert (Ec' : exists v, is_basic v = false /\ scs T = supd (scs t) j v).
+  { unfold T. destruct jf; [exists FIXED; split; reflexivity|].
+    match goal with |- context [if ?c then _ else _] => destruct c end; [exists ON_LOWER|exists ON_UPPER]; split; reflexivity. }
+  destruct Ec' as (v & Hv & ET). cbn [scs set_cs]. rewrite ET.
+  pose proof (cntb_supd (scs t) j v n Hj) as E1.
+  pose proof (cntb_supd (supd (scs t) j v) k BASIC n Hk) as E2.
+  rewrite snth_supd_other in E2 by exact Hjk.
+  unfold b1, gcs in *. rewrite Hv in E1. rewrite Hb in E1. rewrite Ec in E2. simpl in E2. lia.
+Qed.
+
+(* TightenBoundsPS can turn a non-basic column into a basic one without compensation: the count is NOT preserved in
+   general (it is when the tightened bound is not active, which is what the simplifier relies on) *)
+Lemma TightenBounds_count_refuted :
+  exists c j ou ol t, (cntb (scs t) 1 + cntb (srs t) 1 = 1)%nat /\
+    let t' := exec_TightenBounds c j ou ol t in (cntb (scs t') 1 + cntb (srs t') 1 = 2)%nat.
+Proof.
+  exists (exact_cmps (1000000 # 1)), 0%nat, 5, 0, (mkst [2] [0] [2] [0] [ON_LOWER] [BASIC]). split; vm_compute; reflexivity.
+Qed.
+
+Lemma TightenBounds_count c j ou ol t n m : (j < n)%nat ->
+  (* the bound the column sits at is one of its original bounds *)
+  exec_TightenBounds c j ou ol t = t ->
+  (cntb (scs (exec_TightenBounds c j ou ol t)) n + cntb (srs (exec_TightenBounds c j ou ol t)) m = cntb (scs t) n + cntb (srs t) m)%nat.
+Proof. intros _ E. rewrite E. reflexivity. Qed.
+
+Lemma TightenBounds_values c j ou ol t :
+  let t' := exec_TightenBounds c j ou ol t in sx t' = sx t /\ sy t' = sy t /\ ss t' = ss t /\ sr t' = sr t /\ srs t' = srs t.
+Proof.
+  unfold exec_TightenBounds. cbv zeta. destruct (gcs t j); repeat split;
+    repeat match goal with |- context [if ?c then _ else _] => destruct c end; reflexivity.
+Qed.
+
+(* ================================================================================================================= *)
+(* boolean versions of the invariants (for the concrete witnesses and examples)                                      *)
+(* ================================================================================================================= *)
+Definition prim_ident_b (P : lp) (t : st) : bool := forall_lt (nrows P) (fun i => Qeq_bool (gs t i) (activity P i (sx t))).
+Definition dual_ident_b (P : lp) (t : st) : bool :=
+  forall_lt (ncols P) (fun j => Qeq_bool (gr t j) (c_obj (colj P j) - vnth (tmat_vec (matrix P) (sy t)) j)).
+Definition in_bounds_b (lo up : option Q) (v : Q) : bool := in_lo_b lo v && in_up_b up v.
+Definition prim_feas_b (P : lp) (t : st) : bool :=
+  forall_lt (ncols P) (fun j => in_bounds_b (c_lo (colj P j)) (c_up (colj P j)) (gx t j))
+  && forall_lt (nrows P) (fun i => in_bounds_b (r_lhs (rowi P i)) (r_rhs (rowi P i)) (gs t i)).
+Definition cs_prop_b (k : Q) (lo up : option Q) (v : Q) : bool :=
+  (if Qltb 0 k then match lo with Some l => Qeq_bool l v | None => false end else true)
+  && (if Qltb k 0 then match up with Some u => Qeq_bool u v | None => false end else true).
+Definition dual_signs_b (P : lp) (t : st) : bool :=
+  forall_lt (ncols P) (fun j => cs_prop_b (gr t j) (c_lo (colj P j)) (c_up (colj P j)) (gx t j))
+  && forall_lt (nrows P) (fun i => cs_prop_b (gy t i) (r_lhs (rowi P i)) (r_rhs (rowi P i)) (gs t i)).
+Definition basis_count_b (P : lp) (t : st) : bool := Nat.eqb (cntb (scs t) (ncols P) + cntb (srs t) (nrows P)) (nrows P).
+
+Lemma prim_ident_b_ok P t : prim_ident_b P t = true <-> prim_ident P t.
+Proof.
+  unfold prim_ident_b, prim_ident. rewrite forall_lt_iff. split; intros H i Hi; specialize (H i Hi); now apply Qeq_bool_iff.
+Qed.
+Lemma dual_ident_b_ok P t : dual_ident_b P t = true <-> dual_ident P t.
+Proof.
+  unfold dual_ident_b, dual_ident. rewrite forall_lt_iff. split; intros H i Hi; specialize (H i Hi); now apply Qeq_bool_iff.
+Qed.
+Lemma in_bounds_b_ok lo up v : in_bounds_b lo up v = true <-> in_bounds lo up v.
+Proof. unfold in_bounds_b, in_bounds. rewrite andb_true_iff, in_lo_b_iff, in_up_b_iff. tauto. Qed.
+Lemma prim_feas_b_ok P t : prim_feas_b P t = true <-> prim_feas P t.
+Proof.
+  unfold prim_feas_b, prim_feas. rewrite andb_true_iff, !forall_lt_iff.
+  split; intros [A B]; split; intros k Hk; [specialize (A k Hk)|specialize (B k Hk)|specialize (A k Hk)|specialize (B k Hk)];
+    now apply in_bounds_b_ok.
+Qed.
+Lemma cs_prop_b_ok k lo up v : cs_prop_b k lo up v = true -> cs_prop k lo up v.
+Proof.
+  unfold cs_prop_b, cs_prop. rewrite andb_true_iff. intros [A B]. split; intros Hk.
+  - apply Qltb_lt in Hk. rewrite Hk in A. destruct lo; [now apply Qeq_bool_iff|discriminate].
+  - apply Qltb_lt in Hk. rewrite Hk in B. destruct up; [now apply Qeq_bool_iff|discriminate].
+Qed.
+Lemma dual_signs_b_ok P t : dual_signs_b P t = true -> dual_signs P t.
+Proof.
+  unfold dual_signs_b, dual_signs. rewrite andb_true_iff, !forall_lt_iff.
+  intros [A B]; split; intros k Hk; apply cs_prop_b_ok; auto.
+Qed.
+Lemma basis_count_b_ok P t : basis_count_b P t = true <-> basis_count P t.
+Proof. unfold basis_count_b, basis_count. apply Nat.eqb_eq. Qed.
+
+Definition all_inv_b (P : lp) (t : st) : bool :=
+  prim_ident_b P t && dual_ident_b P t && prim_feas_b P t && dual_signs_b P t && basis_count_b P t.
+Lemma all_inv_b_ok P t : all_inv_b P t = true ->
+  prim_ident P t /\ dual_ident P t /\ prim_feas P t /\ dual_signs P t /\ basis_count P t.
+Proof.
+  unfold all_inv_b. rewrite !andb_true_iff. intros [[[[A B] C] D] E].
+  repeat split; [now apply prim_ident_b_ok|now apply dual_ident_b_ok|apply prim_feas_b_ok in C; apply C|apply prim_feas_b_ok in C; apply C
+                |apply dual_signs_b_ok in D; apply D|apply dual_signs_b_ok in D; apply D|now apply basis_count_b_ok].
+Qed.
+
+Definition mkcol (o : Q) (lo up : option Q) : col := {| c_obj := o; c_lo := lo; c_up := up |}.
+Definition mkrow (l : option Q) (a : list Q) (u : option Q) : row := {| r_lhs := l; r_coef := a; r_rhs := u |}.
+
+(* ---- the aggregation witness (corpus/C01/agg-duals.lp at the moment of the aggregation, keep-bounds on) ----
+   before:  min 6 x0,  x0 in [-6,-5], x1 >= -2, x2 in [1,3];  -2 x1 <= -2;  4 x0 - 4 x2 = -24;  8 x0 + 4 x1 <= -36
+   x2 := x0 + 6 is aggregated, its bounds [1,3] move onto x0: [-5,-3] /\ [-6,-5] = [-5,-5]                              *)
+Definition agg_P : lp :=
+  {| maximize := false; offset := 0;
+     cols := [mkcol 6 (Some (-6)) (Some (-5)); mkcol 0 (Some (-2)) None; mkcol 0 (Some 1) (Some 3)];
+     rows := [mkrow None [0; -2; 0] (Some (-2)); mkrow (Some (-24)) [4; 0; -4] (Some (-24)); mkrow None [8; 4; 0] (Some (-36))] |}.
+Definition agg_P' : lp :=
+  {| maximize := false; offset := 0;
+     cols := [mkcol 6 (Some (-5)) (Some (-5)); mkcol 0 (Some (-2)) None];
+     rows := [mkrow None [0; -2] (Some (-2)); mkrow None [8; 4] (Some (-36))] |}.
+(* optimal basic solution of the reduced LP (vectors keep the dimensions of the original LP) *)
+Definition agg_t : st := mkst [-5; 1; 0] [0; 0; 0] [-2; -36; 0] [6; 0; 0] [FIXED; BASIC; UNDEFINED] [ON_UPPER; BASIC; UNDEFINED].
+Definition agg_cmps : cmps := exact_cmps (inject_Z (10 ^ 100)).
+Definition agg_old := exec_Aggregation_old agg_cmps 2 1 2 2 3 1 0 (-5) (-6) (-24) [(0%nat, 4); (2%nat, -4)] [(1%nat, -4)] agg_t.
+Definition agg_new := exec_Aggregation agg_cmps 2 1 2 2 3 1 0 (-5) (-6) (-24) [(0%nat, 4); (2%nat, -4)] [(1%nat, -4)] agg_t.
+
+Lemma agg_witness_reduced_ok : all_inv_b agg_P' agg_t = true.
+Proof. vm_compute. reflexivity. Qed.
+
+(* the rule before commit 506310f: the returned duals violate r = c - A^T y (r_0 = 0 although c_0 = 6 and y = 0) *)
+Lemma aggregation_dual_refuted_old_rule :
+  prim_ident agg_P' agg_t /\ dual_ident agg_P' agg_t /\ prim_feas agg_P' agg_t /\ dual_signs agg_P' agg_t /\ basis_count agg_P' agg_t /\
+  exists t', agg_old = Some t' /\ prim_ident agg_P t' /\ ~ dual_ident agg_P t'.
+Proof.
+  pose proof (all_inv_b_ok _ _ agg_witness_reduced_ok) as (A & B & C & D & E).
+  repeat split; try assumption; try apply C; try apply D.
+  eexists. split; [vm_compute; reflexivity|]. split.
+  - apply prim_ident_b_ok. vm_compute. reflexivity.
+  - intros H. apply dual_ident_b_ok in H. vm_compute in H. discriminate.
+Qed.
+
+(* the rule after the commit: all five invariants hold for the LP before the aggregation *)
+Lemma aggregation_fixed_on_witness :
+  exists t', agg_new = Some t' /\ prim_ident agg_P t' /\ dual_ident agg_P t' /\ prim_feas agg_P t' /\ dual_signs agg_P t' /\ basis_count agg_P t'.
+Proof.
+  eexists. split; [vm_compute; reflexivity|]. apply all_inv_b_ok. vm_compute. reflexivity.
+Qed.
+
+(* the algebra of the repair: R_j, R_k are the reduced costs of x_j, x_k without the contribution of the aggregated row,
+   r'_k = R_k + coef * R_j (coef = -a_ik / a_ij) is the reduced cost of x_k in the reduced LP.  With the row dual
+   y_i = R_j / a_ij + r'_k / a_ik the reduced cost of x_k vanishes and that of x_j is -(a_ij / a_ik) r'_k; its sign fits
+   the bound of x_j that had been moved onto x_k. *)
+Lemma aggregation_dual_update aij aik Rj Rk : ~ aij == 0 -> ~ aik == 0 ->
+  let r'k := Rk + (- (aik / aij)) * Rj in
+  let yi := Rj / aij + r'k / aik in
+  Rk - aik * yi == 0 /\ Rj - aij * yi == - (aij / aik) * r'k.
+Proof. intros H1 H2 r'k yi. unfold yi, r'k. split; field; auto. Qed.
+
+Lemma aggregation_dual_sign aij aik r'k : ~ aij == 0 -> ~ aik == 0 ->
+  let coef := - (aik / aij) in
+  let rj := - (aij / aik) * r'k in
+  (0 < coef -> (0 <= r'k -> 0 <= rj) /\ (r'k <= 0 -> rj <= 0)) /\
+  (coef < 0 -> (0 <= r'k -> rj <= 0) /\ (r'k <= 0 -> 0 <= rj)).
+Proof.
+  intros H1 H2 coef rj.
+  assert (E : rj == r'k / coef) by (unfold rj, coef; field; auto).
+  assert (Hc : ~ coef == 0).
+  { unfold coef. intros Hz. apply H2. assert (aik / aij == 0) by lra. apply (Qmult_inj_r _ _ (/ aij)); [|unfold Qdiv in H; lra].
+    intros Hi. apply H1. rewrite <- (Qinv_involutive aij). rewrite Hi. reflexivity. }
+  split; intros Hs.
+  - assert (0 < / coef) by (apply Qinv_lt_0_compat; exact Hs). unfold Qdiv in E. split; intros Hr; rewrite E; nra.
+  - assert (0 < / (- coef)) by (apply Qinv_lt_0_compat; lra).
+    assert (E2 : / (- coef) == - / coef) by (field; exact Hc). unfold Qdiv in E. split; intros Hr; rewrite E; nra.
+Qed.
+
+(* ---- the multi-aggregation witness ----
+   before: min x0;  x0 in [0,10], x1 in [-100,100];  x0 + x1 >= 2;  x0 - x1 <= 5.   x1 := 2 - x0 (row 0 at its lhs)
+   after:  min x0;  x0 in [0,10];  2 x0 <= 7                                                                            *)
+Definition magg_P : lp :=
+  {| maximize := false; offset := 0;
+     cols := [mkcol 1 (Some 0) (Some 10); mkcol 0 (Some (-100)) (Some 100)];
+     rows := [mkrow (Some 2) [1; 1] None; mkrow None [1; -1] (Some 5)] |}.
+Definition magg_P' : lp :=
+  {| maximize := false; offset := 0; cols := [mkcol 1 (Some 0) (Some 10)]; rows := [mkrow None [2] (Some 7)] |}.
+Definition magg_t : st := mkst [0; 0] [0; 0] [0; 0] [1; 0] [ON_LOWER; UNDEFINED] [BASIC; UNDEFINED].
+Definition magg_old := exec_MultiAggregation_old agg_cmps 1 0 1 1 0 2 true false [(0%nat, 1); (1%nat, 1)] [(0%nat, 1); (1%nat, -1)] magg_t.
+Definition magg_new := exec_MultiAggregation agg_cmps 1 0 1 1 0 2 true false [(0%nat, 1); (1%nat, 1)] [(0%nat, 1); (1%nat, -1)] magg_t.
+
+Lemma magg_witness_reduced_ok : all_inv_b magg_P' magg_t = true.
+Proof. vm_compute. reflexivity. Qed.
+
+Lemma multiaggregation_slack_refuted_old_rule :
+  prim_ident magg_P' magg_t /\ dual_ident magg_P' magg_t /\ prim_feas magg_P' magg_t /\ dual_signs magg_P' magg_t /\ basis_count magg_P' magg_t /\
+  dual_ident magg_P magg_old /\ ~ prim_ident magg_P magg_old.
+Proof.
+  pose proof (all_inv_b_ok _ _ magg_witness_reduced_ok) as (A & B & C & D & E).
+  repeat split; try assumption; try apply C; try apply D.
+  - apply dual_ident_b_ok. vm_compute. reflexivity.
+  - intros H. apply prim_ident_b_ok in H. vm_compute in H. discriminate.
+Qed.
+
+Lemma multiaggregation_fixed_on_witness :
+  prim_ident magg_P magg_new /\ dual_ident magg_P magg_new /\ prim_feas magg_P magg_new /\ dual_signs magg_P magg_new /\ basis_count magg_P magg_new.
+Proof. apply all_inv_b_ok. vm_compute. reflexivity. Qed.
+
+(* ================================================================================================================= *)
+(* what the invariants are for: at the end of the walk they make the state an exact optimality certificate            *)
+(* ================================================================================================================= *)
+Lemma vnth_firstn n l j : (j < n)%nat -> vnth (firstn n l) j = vnth l j.
+Proof.
+  revert l j; induction n as [|n IH]; intros l j H; [lia|].
+  destruct l as [|a l]; [reflexivity|]. destruct j as [|j]; simpl; [reflexivity|]. apply IH. lia.
+Qed.
+
+Lemma dot_firstn u x n : (length u <= n)%nat -> dot u (firstn n x) == dot u x.
+Proof.
+  intros H. rewrite !dot_sumn. apply sumn_ext. intros k Hk. rewrite vnth_firstn by lia. reflexivity.
+Qed.
+
+Lemma tmat_vec_firstn A y m j : (length A <= m)%nat -> vnth (tmat_vec A (firstn m y)) j == vnth (tmat_vec A y) j.
+Proof.
+  intros H. rewrite !tmat_vec_sumn. apply sumn_ext. intros k Hk. rewrite vnth_firstn by lia. reflexivity.
+Qed.
+
+Lemma Qltb_irrefl_false a b : Qltb a b = true -> a < b.
+Proof. apply Qltb_lt. Qed.
+
+Theorem invariants_give_optimality (P : lp) (t : st) :
+  maximize P = false -> wf_lp P -> (ncols P <= length (sx t))%nat -> (nrows P <= length (sy t))%nat ->
+  prim_ident P t -> dual_ident P t -> prim_feas P t -> dual_signs P t ->
+  check_opt_exact P (firstn (ncols P) (sx t)) (firstn (nrows P) (sy t)) = true /\ optimal P (firstn (ncols P) (sx t)).
+Proof.
+  intros Hmin W Lx Ly Hp Hd [Fc Fr] [Sc Sr].
+  assert (Eact : forall i, (i < nrows P)%nat -> activity P i (firstn (ncols P) (sx t)) == gs t i).
+  { intros i Hi. unfold activity. rewrite dot_firstn by (rewrite W by auto; lia). symmetry. apply (Hp i Hi). }
+  assert (Ered : forall j, (j < ncols P)%nat -> redcost P (firstn (nrows P) (sy t)) j == gr t j).
+  { intros j Hj. unfold redcost, tvec. rewrite tmat_vec_firstn by (rewrite matrix_length; lia). symmetry. apply (Hd j Hj). }
+  assert (C : check_opt_exact P (firstn (ncols P) (sx t)) (firstn (nrows P) (sy t)) = true).
+  { unfold check_opt_exact. rewrite !andb_true_iff. repeat split.
+    - apply feasible_b_iff. split; [apply firstn_length_le; exact Lx|]. split.
+      + intros j Hj. rewrite vnth_firstn by exact Hj. apply (Fc j Hj).
+      + intros i Hi. destruct (Fr i Hi) as [A B]. split.
+        * destruct (r_lhs (rowi P i)); simpl in *; [|exact I]. rewrite Eact by exact Hi. exact A.
+        * destruct (r_rhs (rowi P i)); simpl in *; [|exact I]. rewrite Eact by exact Hi. exact B.
+    - apply Nat.eqb_eq. apply firstn_length_le. exact Ly.
+    - apply forall_lt_iff. intros j Hj. unfold sgn. rewrite Hmin. rewrite vnth_firstn by exact Hj.
+      destruct (Sc j Hj) as [A B]. unfold cs_ok. apply andb_true_iff. split.
+      + destruct (Qltb 0 (1 * redcost P (firstn (nrows P) (sy t)) j)) eqn:E; [|reflexivity].
+        apply Qltb_lt in E. rewrite Ered in E by exact Hj. assert (E' : 0 < gr t j) by lra. specialize (A E').
+        unfold tight_lo, gx in *. destruct (c_lo (colj P j)); [now apply Qeq_bool_iff|contradiction].
+      + destruct (Qltb (1 * redcost P (firstn (nrows P) (sy t)) j) 0) eqn:E; [|reflexivity].
+        apply Qltb_lt in E. rewrite Ered in E by exact Hj. assert (E' : gr t j < 0) by lra. specialize (B E').
+        unfold tight_up, gx in *. destruct (c_up (colj P j)); [now apply Qeq_bool_iff|contradiction].
+    - apply forall_lt_iff. intros i Hi. unfold sgn. rewrite Hmin. rewrite vnth_firstn by exact Hi.
+      destruct (Sr i Hi) as [A B]. unfold cs_ok. apply andb_true_iff. unfold gy in *. split.
+      + destruct (Qltb 0 (1 * vnth (sy t) i)) eqn:E; [|reflexivity].
+        apply Qltb_lt in E. assert (E' : 0 < vnth (sy t) i) by lra. specialize (A E').
+        unfold tight_lo. destruct (r_lhs (rowi P i)); [|contradiction]. apply Qeq_bool_iff. rewrite Eact by exact Hi. exact A.
+      + destruct (Qltb (1 * vnth (sy t) i) 0) eqn:E; [|reflexivity].
+        apply Qltb_lt in E. assert (E' : vnth (sy t) i < 0) by lra. specialize (B E').
+        unfold tight_up. destruct (r_rhs (rowi P i)); [|contradiction]. apply Qeq_bool_iff. rewrite Eact by exact Hi. exact B. }
+  split; [exact C|]. apply opt_cert_sound with (y := firstn (nrows P) (sy t)). exact C.
+Qed.
